@@ -44,6 +44,8 @@ const ALIVE: u64 = 0xA11C_5EED_0BAD_F00D;
 const DEAD: u64 = 0xDEAD_DEAD_DEAD_DEAD;
 
 struct Node {
+    // over-aligned on purpose (align 16): code that assumes the payload sits at the same offset for every T is exposed
+    _align: u128,
     id: usize,
     canary: Cell<u64>,
     strong: RefCell<Vec<Rc<Node>>>,
@@ -102,6 +104,7 @@ impl Clone for Node {
         });
         let unlinked = ST.with(|s| s.borrow().clone_unlinked);
         Node {
+            _align: 0,
             id,
             canary: Cell::new(ALIVE),
             strong: RefCell::new(if unlinked { vec![] } else { self.strong.borrow().iter().cloned().collect() }),
@@ -278,7 +281,7 @@ fn run_op(op: &Op, _in_dtor: bool) {
                 "new" => {
                     junk();
                     let id = num(a[1]);
-                    let r = Rc::new(Node { id, canary: Cell::new(ALIVE), strong: RefCell::new(vec![]), weak: RefCell::new(vec![]) });
+                    let r = Rc::new(Node { _align: 0, id, canary: Cell::new(ALIVE), strong: RefCell::new(vec![]), weak: RefCell::new(vec![]) });
                     ST.with(|s| s.borrow_mut().addr2obj.insert(Rc::as_ptr(&r) as usize, id));
                     put(a[2], H::Rc(r));
                 }
@@ -300,7 +303,7 @@ fn run_op(op: &Op, _in_dtor: bool) {
                 "new_from" | "new_from_box" => {
                     junk();
                     let id = num(a[1]);
-                    let n = Node { id, canary: Cell::new(ALIVE), strong: RefCell::new(vec![]), weak: RefCell::new(vec![]) };
+                    let n = Node { _align: 0, id, canary: Cell::new(ALIVE), strong: RefCell::new(vec![]), weak: RefCell::new(vec![]) };
                     let r: Rc<Node> = if a[0] == "new_from" { Rc::from(n) } else { Rc::from(Box::new(n)) };
                     put(a[2], H::Rc(r));
                 }
